@@ -181,8 +181,12 @@ func (a *AST) Format(w io.Writer) {
 		case *ImportGroupStmt:
 			fw.NewLine()
 		case *ImportLiteralStmt:
-			if idx < len(a.Stmts)-1 {
-				_, ok := a.Stmts[idx+1].(*ImportLiteralStmt)
+			next := idx + 1
+			for next < len(a.Stmts) && a.Stmts[next].Format() == NilIndent {
+				next++
+			}
+			if next < len(a.Stmts) {
+				_, ok := a.Stmts[next].(*ImportLiteralStmt)
 				if !ok {
 					fw.NewLine()
 				}
